@@ -222,7 +222,7 @@ def _replay_chunk(rows):
     REGS = [0, 1, 2, 32, 48]
     for row in rows:
         case = {"id": 0, "umsize": 1, "meas": [1, 0], "progs": [row["prog"]], "regset": REGS, "addrs": [0]}
-        t = rig.run_case(case, max_steps=len(row["pcs"]) + 3)
+        t = rig.run_case(case, max_steps=3 * len(row["pcs"]) + 10)      # (hook yields of qfree count against the budget too)
         ex = [s for s in t["steps"] if s["kind"] == "exec"]
         n = len(row["pcs"])
         pre = [0] + [s["post"]["pc"] for s in ex]
